@@ -185,6 +185,17 @@ fn main() {
             for p in &progs { for input in &inputs {
                 emit(&Case { lim: None, det: false, input: input.clone(), env: vec![], prog: p.clone() }, &mut w);
             } }
+            // every primitive, alone and under each wrapper, on characters of every UTF-8 width
+            let wide = wide_inputs();
+            let mut wl: Vec<Prog> = vec![Prog::Skip(1), Prog::Skip(2), Prog::Cls(vec![('\0', '\u{10ffff}')]), Prog::Range('\u{800}', '\u{10ffff}'), Prog::Range('a', '\u{ffff}'),
+                Prog::Str("😀".into()), Prog::Str("€".into()), Prog::Ins("€".into()), Prog::Until(vec!["b".into()]), Prog::Until(vec!["a".into(), "😀".into()]),
+                Prog::Until(vec!["b".into(), "a".into(), "€".into(), "é".into()]), Prog::Until(vec!["\u{10ffff}".into()]), Prog::Eoi];
+            let base = wl.clone();
+            for u in &un { for l in &base { wl.push(u(l.clone())); } }
+            for a in &base { for b in &base { wl.push(Prog::Then(Box::new(a.clone()), Box::new(b.clone()))); } }
+            for p in &wl { for input in &wide {
+                emit(&Case { lim: None, det: false, input: input.clone(), env: vec![], prog: p.clone() }, &mut w);
+            } }
         }
         _ => { eprintln!("usage: comb one CASE | random COUNT SEED [DEPTH] | stack COUNT SEED | stackmatch | small MAXLEN"); std::process::exit(2); }
     }
